@@ -152,8 +152,8 @@ R.contract(
 # a _TurnBuffer is a TypedDict; only its keys turn_id / slice_idx are read here, so it is modelled as a dict-like
 # record value over those two keys (type invariant: both present, slice_idx an int -- `int(None)` in the except arm of
 # _key would escape otherwise).  turn_id: int | str (documented): one record type per alternative.
-R.record("TurnBufI", {"turn_id": "int", "slice_idx": "int"}, dictlike=True)
-R.record("TurnBufS", {"turn_id": "str", "slice_idx": "int"}, dictlike=True)
+R.record("TurnBufI", {"turn_id": "int", "slice_idx": "int", "agent_id": "str"}, dictlike=True)
+R.record("TurnBufS", {"turn_id": "str", "slice_idx": "int", "agent_id": "str"}, dictlike=True)
 KEYFN = OP + "_sort_turn_buffers.<locals>._key"
 R.contract(
     KEYFN, "C10", name="_sort_turn_buffers._key[int turn_id]",
